@@ -556,7 +556,7 @@ KIND_KEYS = {
     "args": ["i0", "i1", "i2", "length", "zz"],
     "margs": ["i0", "i1", "i2", "length", "zz"],
     "ta": ["i0", "i1", "i2", "i5", "x", "zz"],
-    "str": ["i0", "i1", "length", "x", "zz"],
+    "str": ["i0", "i1", "i2", "length", "x", "zz"],
 }
 SEQ_VALS = ["i1", "i2", "i7", "u", "n", "N", "z", "s1", "o3", "i0"]
 # Descriptors used by def/odef (the exclusions of the first round -- accessor descriptors without a setter function,
@@ -577,9 +577,9 @@ PRIMS = {"gpo", "spo", "ie", "pe", "gopd", "def", "has", "rget", "rset", "del", 
 # per target kind: restrictions of the alphabets that remain because the defect behind them STILL reproduces on /repo HEAD
 # (failing inputs in design/C11.md §4; all are defects of the target's own entry points, not of proxy.go)
 KIND_CFG = {
-    # String object: integer keys >= length and defineProperty on index keys behave differently through the Idx and Str
-    # entry points of stringObject; JSON.stringify / freeze depend on the [[StringData]] slot or on those entry points
-    "str": {"desc_keys": ["x", "zz"], "drop": ["json", "freeze", "seal"]},
+    # String object: JSON.stringify depends on the [[StringData]] slot, which a proxy does not have (spec-mandated difference).
+    # (The Idx/Str entry-point disagreement of stringObject is repaired: 26a3635 -- its restrictions are gone.)
+    "str": {"drop": ["json"]},
     # mapped arguments object: seal + foreign-receiver set unseals; enumerable:false redefinition ignored by Object.keys
     "margs": {"descs": VALUE_DESCS, "drop": ["freeze", "seal", "isFrozen", "isSealed"]},
 }
